@@ -85,6 +85,20 @@ Dup(r, how) ==
         /\ hist' = Append(hist, [r |-> r, l |-> how])
         /\ UNCHANGED <<scen, elems>>
 
+\* immutable = False (behaviour outside the property list, DESIGN.md section 7): the same effect WITHOUT the copy step - no new
+\* object; a rebind gives the receiver a fresh cell, an in-place effect writes to the cell it has (and so to every object
+\* that shares it).  Not part of Next; MC_Mutable composes it.
+MCall(r, l) ==
+    LET n == Len(hist) + 2
+        e == Eff(scen, l)
+    IN  /\ objs' = [objs EXCEPT ![r] = [a \in A |-> IF e[a] = "rebind" THEN BindCell(n, a) ELSE objs[r][a]]]
+        /\ cells' = [c \in DOMAIN cells \cup {BindCell(n, a) : a \in {x \in A : e[x] = "rebind"}} |->
+                        IF c \in DOMAIN cells THEN (IF \E a \in A : e[a] = "inplace" /\ objs[r][a] = c THEN cells[c] \o <<n>> ELSE cells[c])
+                        ELSE cells[objs[r][AttrOfCell(c)]] \o <<n>>]
+        /\ elems' = [a \in A |-> IF e[a] = "nested" THEN elems[a] \o <<n>> ELSE elems[a]]
+        /\ hist' = Append(hist, [r |-> r, l |-> l])
+        /\ UNCHANGED <<scen, snap>>
+
 Next == \/ /\ Len(hist) < MaxCalls
            /\ \E r \in 1..Len(objs), l \in LabelsOf(scen) : Call(r, l)
         \/ /\ Len(hist) >= MaxCalls /\ Len(hist) < MaxDeep
